@@ -18,6 +18,9 @@ type Behaviour struct {
 	Signal     bool   `json:"signal,omitempty"` // kill itself with SIGKILL instead of exiting
 	Gate       string `json:"gate,omitempty"`   // wait until .vhook/gates/<gate> exists
 	SleepMs    int    `json:"sleep_ms,omitempty"`
+	// PostGate: after the output files were written a record with phase "written" is logged and the process
+	// waits for this gate before it ends
+	PostGate string `json:"post_gate,omitempty"`
 	Metrics    *File  `json:"metrics,omitempty"`
 	Patch      *File  `json:"patch,omitempty"`
 	Admission  *File  `json:"admission,omitempty"`
@@ -25,6 +28,8 @@ type Behaviour struct {
 	// ConvertTo: write a conversion response converting every object of the review in the
 	// binding context to this apiVersion (computed by the hook from its input).
 	ConvertTo string `json:"convert_to,omitempty"`
+	// ConvertFailMsg: with ConvertTo, also put this failedMessage into the conversion response
+	ConvertFailMsg string `json:"convert_fail_msg,omitempty"`
 	// ConvertDrop: number of objects to drop from the converted list.
 	ConvertDrop int `json:"convert_drop,omitempty"`
 }
@@ -57,7 +62,7 @@ type FileStat struct {
 // Record is one line of the invocation log.
 type Record struct {
 	Hook    string              `json:"hook"`
-	Phase   string              `json:"phase"` // config start end
+	Phase   string              `json:"phase"` // config start written end
 	Seq     int                 `json:"seq"`
 	Pid     int                 `json:"pid"`
 	T       int64               `json:"t"` // unix nanoseconds taken inside the process
